@@ -48,7 +48,8 @@ TEXTS["C06"] = {
     "text": "Proved on the model of setTimeoutList/getTimeoutList/setTimeoutRollback for all ledgers, heights, ids: an accepted plain request with 0<T (no overflow) is recorded for exactly H+T "
             "(C06_request_recorded_at_deadline), T<=0/overflow/rejected/batch/begin-failed requests are never recorded (C06_zero_never, C06_rejected_never), an accepted receipt requests removal "
             "at the recorded height (C06_receipt_removes), between two BitXHubs a request whose record is final (the destination hub's notice) leaves the list of the recorded deadline and joins none (C06_notice_leaves_list; the three request theorems carry the hypothesis that there is no such record, "
-            "discharged for local pairs and open records by finalInterRecord_none_of_local / _of_open), the timeout step of block h moves every listed id to BEGIN_ROLLBACK and touches no unlisted id "
+            "discharged for local pairs and open records by finalInterRecord_none_of_local / _of_open), a Group request between two hubs is booked like any other (C06_interhub_request_with_group_recorded). Block level (Proofs/TimeoutList.lean): what is stored under every timeout height after the bookkeeping of a whole block follows from the per-transaction actions alone, in whatever order the two Go maps are iterated "
+            "(setTimeoutList_at): every request the block books for d is on that list afterwards, once, behind what was there (C06_block_books_requests), an id taken off is gone (C06_block_unbooks), a request and its receipt in one block net out (C06_block_request_and_receipt_net_out), other heights keep their lists (C06_block_other_heights_untouched). The timeout step of block h moves every listed id to BEGIN_ROLLBACK and touches no unlisted id "
             "(C06_fires_at_deadline, C06_not_listed_untouched). The end-to-end statement over histories is checked by model correspondence and the protocol monitor, one-to-one and (a quarter of the traffic) one-to-many: a group is listed as timed out only "
             "in its deadline block and only if it has neither failed nor finished. Defects repaired by fix: commits (097cb155, 1d4711ef, the timeout-list quirks, ec8a63d5, 56c2160a, 37545315).",
     "note": TB,
